@@ -60,11 +60,15 @@ def run_a1(case, acc, order):
     tables = list(itertools.product(rows, repeat=ns))
     only = case.get('only_op')
     opi = -1
-    for table in tables:
-        cols = np.array(table, dtype=[np.int64, np.int32, np.uint32][len(table) % 3]
-                        if all(c >= 0 for r in table for c in r) else np.int64).reshape(ns, n_loc)
+    for ti, table in enumerate(tables):
+        cols = np.array(table, dtype=[np.int64, np.int32, np.uint32][ti % 3]
+                        if all(c >= 0 for r in table for c in r) else
+                        [np.int64, np.int32][ti % 2]).reshape(ns, n_loc)
         data = (np.arange(1, ns * n_loc * int(np.prod(trailing or (1,))) + 1, dtype=dt) * 0.5).reshape(
             (ns, n_loc) + trailing)
+        # the caller's arrays are used for every request on this table (as a caller would): the
+        # reference works on private copies, and the arrays must come back unchanged
+        cols0, data0 = cols.copy(), data.copy()
         acc.state()
         for req in requests():
             for cont in ('list', 'array'):
@@ -72,11 +76,19 @@ def run_a1(case, acc, order):
                 if only is not None and only != opi:
                     continue
                 ch = list(req) if cont == 'list' else np.array(req, dtype=np.int64)
-                exp = ref_from_sparse(data, cols, list(req))
+                exp = ref_from_sparse(data0, cols0, list(req))
                 try:
                     got = from_sparse(data, cols, ch)
                 except Exception as e:
                     got = e
+                if not (np.array_equal(cols, cols0) and np.array_equal(data, data0)):
+                    sig = '%s/from_sparse/input-arrays-modified' % PROP
+                    acc.violation(sig, core.make_record(
+                        PROP, 'from_sparse', sig, case=dict(case, only_op=opi),
+                        op={'cols': [list(r) for r in table], 'cols_dtype': str(cols.dtype),
+                            'channels': list(req), 'container': cont},
+                        expected=describe(cols0), observed=describe(cols)), order * 10 ** 6 + opi)
+                    cols, data = cols0.copy(), data0.copy()
                 unknown = any(c == 5 for c in req) or any(
                     c not in r for r in table for c in req)
                 acc.step(unknown or list(req) != sorted(req), 'a1')
@@ -366,8 +378,10 @@ def explore(ctx):
     ctx.run_cases(run_case, cases, chunk=1, sweep='A1-from_sparse')
     cases = []
     k = 0
-    for feat in ('sparse', 'sparse_rows', 'noind'):
-        for tfe in ('sparse', 'sparse_rows', 'noind'):
+    for feat in ('sparse', 'sparse_rows', 'noind', 'sparse_rows_all', 'sparse_rows_unsorted'):
+        for tfe in ('sparse', 'sparse_rows', 'noind', 'sparse_rows_all', 'sparse_rows_unsorted'):
+            if not ctx.thorough and 'sparse_rows_' in feat and 'sparse_rows_' in tfe and feat != tfe:
+                continue
             for idt in ('int32', 'uint32'):
                 for cur in ('same', 'swapped'):
                     # 'swapped': curated clusters that differ from the templates (existing ids only):
